@@ -69,7 +69,7 @@ def handle (op : String) (a : Args) : Option String :=
     let strict ← a.nat "strict"
     let body ← a.bytes "body"
     let d ← a.bytes "digest"
-    match parseBody (strict == 1) body with
+    match parseBodyCur (strict == 1) body with
     | none => pure "err"
     | some (k, _) =>
       match preimage k, legacyKeyId (constH d) k with
